@@ -570,6 +570,9 @@ def run(ctx, rep):
     rule_trim(ctx, rep)
     rule_wrap(ctx, rep)
     rule_finite(ctx, rep)
+    # the sign of a literal is which of the two sign tokens was written
+    from rules import c01_choice
+    c01_choice.run(ctx, rep, rid="R-C09-choiceid")
     from rules import c09_scale
     c09_scale.run(ctx, rep)
     from rules import c03_errdrop
